@@ -16,7 +16,7 @@ from .c09 import finish
 from .c11 import gen_nested_big
 from .c05 import with_probes
 
-AUDIT = re.compile(r'\b(HashMap|HashSet|RandomState|std::env|env::var|SystemTime|Instant::|thread_rng|rand::|std::fs|fs::read|as \*const|\.as_ptr\(\)|process::id|thread::current)\b')
+AUDIT = re.compile(r'\b(into_group_map|into_grouping_map|into_group_map_by|counts_by|HashMap|HashSet|RandomState|std::env|env::var|SystemTime|Instant::|thread_rng|rand::|std::fs|fs::read|as \*const|\.as_ptr\(\)|process::id|thread::current)\b')
 
 
 def tie_case(rng):
@@ -29,6 +29,23 @@ def tie_case(rng):
               blk('({T0}, {T1})', ['T0', 'T1'], [('{T0}', 'D', {'G': g[1]}, 'where'), ('{T1}', 'D', {'G': g[1]}, 'where')], 'b1'),
               blk('(Vec<{T0}>, Vec<{T0}>)', ['T0'], [('Vec<{T0}>', 'D', {'G': g[2]}, 'where')], 'b2')]
     c = gp.Case('tie', 'K', '', blocks, [], {})
+    return with_probes(rng, c)
+
+
+def composite_case(rng):
+    """one family dispatching on several bounded types that are not bare parameters (a sort or
+    map keyed on the parameter alone leaves their relative order to the container)"""
+    comps = ['Vec<{T0}>', 'Option<{T0}>', '({T0}, {T0})', 'Box<{T0}>', '[{T0}; 2]']
+    rng.shuffle(comps)
+    comps = comps[:rng.choice([2, 3, 4])]
+    g = rng.sample(gp.GROUPS, 3)
+    blocks = []
+    for i in range(rng.choice([2, 3])):
+        slots = gp.mk_slots(rng, ['T0'])
+        bounds = [(cm_, 'D', {'G': (g[i] if j == 0 else rng.choice(gp.GROUPS))}, 'where') for j, cm_ in enumerate(comps)]
+        rng.shuffle(bounds)
+        blocks.append(gp.Block(slots, None, '{T0}', bounds, 'b%d' % i))
+    c = gp.Case('composite', 'K', '', blocks, [], {})
     return with_probes(rng, c)
 
 
@@ -65,11 +82,11 @@ def run(tier, seed, replay=None):
                     if AUDIT.search(line) and not line.strip().startswith('//'):
                         violations.append(dict(kind='property', request='%s:%d' % (os.path.join(root, f), ln),
                                                oracle='source audit: order- or environment-dependent API in the expansion code: ' + line.strip()[:200]))
-    cases = [tie_case(rng)]
-    kinds = ['multi', 'nested_big', 'tie', 'flat', 'nested', 'unsized2']
+    cases = [tie_case(rng), composite_case(rng)]
+    kinds = ['multi', 'nested_big', 'tie', 'composite', 'flat', 'nested', 'unsized2', 'tworoots']
     while len(cases) < n:
         k = kinds[len(cases) % len(kinds)]
-        c = tie_case(rng) if k == 'tie' else with_probes(rng, gen_nested_big(rng)) if k == 'nested_big' else gp.gen_case(rng, k)
+        c = tie_case(rng) if k == 'tie' else composite_case(rng) if k == 'composite' else with_probes(rng, gen_nested_big(rng)) if k == 'nested_big' else gp.gen_case(rng, k)
         cases.append(c)
     setarch = shutil.which('setarch')
     tmpdirs = [tempfile.mkdtemp(prefix='c07_', dir=cm.CACHE) for _ in range(2)]
